@@ -859,4 +859,67 @@ theorem dvFinalize_ok_lookup (es : List Entry) (fields : List Field) (vs : List 
           | none => simp [hl] at hhead
         · exact ih vs' hr f hin hs
 
+/-! ### exact length of `emit`: nulls in the middle, nothing after the last bound column -/
+
+theorem specCell_unbound {look : String → Option (Field × Val)} {c : Col} (h : (look c.name).isSome = false) :
+    specCell look c = none := by
+  unfold specCell
+  cases hl : look c.name with
+  | none => rfl
+  | some p => simp [hl] at h
+
+theorem emit_exact (look : String → Option (Field × Val)) (db : List Col) : ∀ (pend : Nat),
+    ∃ k, k ≤ db.length ∧
+      emit look db pend = (if k = 0 then [] else List.replicate pend none ++ (db.take k).map (specCell look)) ∧
+      (∀ (i : Nat) (c : Col), k ≤ i → db[i]? = some c → (look c.name).isSome = false) ∧
+      (k = 0 ∨ ∃ c, db[k - 1]? = some c ∧ (look c.name).isSome = true) := by
+  induction db with
+  | nil => intro pend; exact ⟨0, Nat.le_refl _, by simp [emit], by intro i c _ h; simp at h, Or.inl rfl⟩
+  | cons a cs ih =>
+    intro pend
+    unfold emit
+    by_cases hm : (look a.name).isSome = true
+    · obtain ⟨k, hk, he, htail, hlast⟩ := ih 0
+      refine ⟨k + 1, by simp; omega, ?_, ?_, ?_⟩
+      · simp only [hm, if_true, he, Nat.add_eq_zero_iff, Nat.succ_ne_zero, and_false, if_false, List.take_succ_cons,
+          List.map_cons]
+        by_cases hk0 : k = 0 <;> simp [hk0]
+      · intro i c hi hc
+        cases i with
+        | zero => omega
+        | succ i => exact htail i c (by omega) (by simpa using hc)
+      · right
+        rcases hlast with h0 | ⟨c, hc, hs⟩
+        · subst h0; exact ⟨a, by simp, hm⟩
+        · refine ⟨c, ?_, hs⟩
+          have : k + 1 - 1 = (k - 1) + 1 := by
+            cases k with
+            | zero => have := htail 0 c (Nat.le_refl _) hc; rw [hs] at this; cases this
+            | succ k => simp
+          rw [this, List.getElem?_cons_succ]; exact hc
+    · simp only [Bool.not_eq_true] at hm
+      obtain ⟨k, hk, he, htail, hlast⟩ := ih (pend + 1)
+      by_cases hk0 : k = 0
+      · subst hk0
+        refine ⟨0, Nat.zero_le _, by simp [hm, he], ?_, Or.inl rfl⟩
+        intro i c _ hc
+        cases i with
+        | zero => simp at hc; subst hc; exact hm
+        | succ i => exact htail i c (Nat.zero_le _) (by simpa using hc)
+      · refine ⟨k + 1, by simp; omega, ?_, ?_, ?_⟩
+        · simp only [hm, Bool.false_eq_true, if_false, he, hk0, Nat.add_eq_zero_iff, Nat.succ_ne_zero, and_false,
+            List.take_succ_cons, List.map_cons, specCell_unbound hm]
+          rw [List.replicate_succ', List.append_assoc]
+          rfl
+        · intro i c hi hc
+          cases i with
+          | zero => omega
+          | succ i => exact htail i c (by omega) (by simpa using hc)
+        · right
+          rcases hlast with h0 | ⟨c, hc, hs⟩
+          · exact absurd h0 hk0
+          · refine ⟨c, ?_, hs⟩
+            have : k + 1 - 1 = (k - 1) + 1 := by omega
+            rw [this, List.getElem?_cons_succ]; exact hc
+
 end ScyllaVerif.Derive
